@@ -555,9 +555,13 @@ def run(ck):
     invalid_cases = [c for c in cases if c[0] == 'invalid']
     rng.shuffle(invalid_cases)
     # one configuration of every defect class first (the gate does not depend on the kind of defect - nor on the mode mdsort runs in)
-    seen_cls = set()
-    first = [c for c in invalid_cases if not (c[1] in seen_cls or seen_cls.add(c[1]))]
-    picks = (first + [c for c in invalid_cases if c not in first])[:(max(25, len(first)) if q else 300)]
+    per_cls = {}
+    first = []
+    for c in invalid_cases:
+        if per_cls.get(c[1], 0) < 4:          # four of every class: the same defect at several places (top level, nested, maildir or stdin block)
+            per_cls[c[1]] = per_cls.get(c[1], 0) + 1
+            first.append(c)
+    picks = (first + [c for c in invalid_cases if c not in first])[:(max(25, len(first)) if q else max(300, len(first)))]
     gate_runs = [(c, mode) for c in picks for mode in ('maildir', 'stdin', 'dry-stdin')]
     for (kind, cls, text), mode in gate_runs:
         sb = mdrun.Sandbox()
@@ -606,7 +610,7 @@ def run(ck):
                 'parentheses / body / header with 1 string or a string block / date with every field, comparison, 15 scalar spellings and ages up to the 32-bit limit / new / old / all / '
                 'isdirectory / command, and/or chains; actions: every action incl. exec with option orders and attachment blocks; strings with escaped quotes, backslashes, braces, #, $, '
                 '~, ${macro}, ${path}, back-references; 9 pattern delimiters, flags i l u; random blanks, newlines and comments between tokens); %d classes of invalidating edits at a '
-                'random (thorough: every, up to 6) applicable position; 2-4 byte-level mutations per configuration; the gate on the binary for one rejected configuration of every defect class (and more), each in maildir mode, reading the message from stdin, and with -d reading from stdin. '
+                'random (thorough: every, up to 6) applicable position; 2-4 byte-level mutations per configuration; the gate on the binary for four rejected configurations of every defect class, each in maildir mode, reading the message from stdin, and with -d reading from stdin. '
                 'non-trivial = valid and catalogue cases' % len(EDITS),
         'samples': samples,
         'traces_validated_against_impl': len(cases),
